@@ -132,3 +132,11 @@ add("C09",
     "all argument containers/leaves are unchanged (identity); results are compared across the enumerated hash seeds.",
     "hash seeds/processes and call histories other than the enumerated ones are outside; real-number model of floats",
     "DESIGN.md section 7 C09")
+add("C12",
+    "Rejection: CrossHair on the real Model constructor (all combinations of rule violations via symbolic flags; only "
+    "ModelInitilizationError) and the grid constructors; creation-time rejections of get_lcm_function per shape. Completion: per "
+    "shape of a catalogue, jax.make_jaxpr(solve) (abstract tracing = no Python-level error for any parameter values of these "
+    "shapes) and symbolic execution of simulate on all paths with symbolic params, value arrays and states; the import of the entry "
+    "point. Six accepted-but-failing shapes are recorded as known findings.",
+    "catalogue of 31 accepted + 5 rejected shapes; 2 agents; CrossHair timeout 200 s; shapes outside the catalogue are outside the claim",
+    "DESIGN.md section 7 C12", technique="CrossHair (z3) on the validators; abstract tracing + symbolic execution of the real JAX pipeline with path forking (z3) for completion", engine="symjax+crosshair")
